@@ -103,6 +103,8 @@ def main():
             if r.size > 10_000:
                 return {"ndarray_shape": list(r.shape)}
             return {"ndarray": r.tolist()}
+        if isinstance(r, int | np.integer | np.bool_):
+            return {"scalar": int(r)}
         return {"scalar": int(r) if float(r) == int(r) else float(r)}
 
     def run(c):
